@@ -11,14 +11,15 @@
      * several '@' fields: each is parsed (first failure rejects), the last one wins;
      * several '#' fields: tags accumulate;
      * a known event key not followed by ':' is rejected, an unknown key is ignored.
-   Not modelled at token level (control state "ANY": the model makes no prediction): header numbers
-   near 2^32 / 2^64 (token class Huge; see EventBodyWrap.tla for the uint32 arithmetic) and a
-   declared length that ends inside a multi-byte token. *)
+   Not modelled at token level (the model makes no prediction, Final = "any"): header numbers near
+   2^32 / 2^64 (token class Huge: the header is read on, then control state "ev_hbody" absorbs the
+   body; see EventBodyWrap.tla for the uint32 arithmetic) and a declared length that ends inside a
+   multi-byte token (control state "ANY"). *)
 EXTENDS Grammar
 
 Q0 == [st |-> "special", name |-> <<>>, val |-> <<>>, typ |-> "", rates |-> <<>>, tags |-> <<>>,
        cur |-> <<>>, key |-> "", n1 |-> <<>>, n2 |-> <<>>, left |-> 0, title |-> <<>>, text |-> <<>>,
-       date |-> <<>>, host |-> <<>>, aggkey |-> <<>>, stype |-> <<>>, pri |-> <<>>, alert |-> <<>>]
+       date |-> <<>>, host |-> <<>>, aggkey |-> <<>>, stype |-> <<>>, pri |-> <<>>, alert |-> <<>>, hg |-> FALSE]
 
 Err(q)  == [q EXCEPT !.st = "ERR"]
 AnyQ(q)  == [q EXCEPT !.st = "ANY"]
@@ -64,13 +65,14 @@ Delta(q, t) ==
     \* ---- events
     [] q.st = "dd"      -> IF t = "e" THEN [q EXCEPT !.st = "ev_open"] ELSE Err(q)
     [] q.st = "ev_open" -> IF t = "{" THEN [q EXCEPT !.st = "ev_n1"] ELSE Err(q)
-    [] q.st = "ev_n1"   -> IF t \in Huge THEN AnyQ(q)
+    [] q.st = "ev_n1"   -> IF t \in Huge THEN [q EXCEPT !.n1 = Append(q.n1, "1"), !.hg = TRUE]
                            ELSE IF t \in Digits THEN [q EXCEPT !.n1 = Append(q.n1, t)]
                            ELSE IF q.n1 # <<>> /\ t = "," THEN [q EXCEPT !.st = "ev_n2"] ELSE Err(q)
-    [] q.st = "ev_n2"   -> IF t \in Huge THEN AnyQ(q)
+    [] q.st = "ev_n2"   -> IF t \in Huge THEN [q EXCEPT !.n2 = Append(q.n2, "1"), !.hg = TRUE]
                            ELSE IF t \in Digits THEN [q EXCEPT !.n2 = Append(q.n2, t)]
                            ELSE IF q.n2 # <<>> /\ t = "}" THEN [q EXCEPT !.st = "ev_colon"] ELSE Err(q)
     [] q.st = "ev_colon" -> IF t # ":" THEN Err(q)
+                            ELSE IF q.hg THEN [q EXCEPT !.st = "ev_hbody"]   \* lengths near 2^32 / 2^64: no prediction
                             ELSE IF DecVal(q.n1, 0) = 0 THEN [q EXCEPT !.st = "ev_sep"]
                             ELSE [q EXCEPT !.st = "ev_title", !.left = DecVal(q.n1, 0)]
     [] q.st = "ev_title" -> IF ByteLen(t) > q.left THEN AnyQ(q)
@@ -113,7 +115,7 @@ Final(q) ==
     [] q.st = "ev_date" -> IF q.cur = <<>> THEN Reject ELSE EventOf([q EXCEPT !.date = q.cur])
     [] q.st = "ev_val"  -> (LET c == Commit(q) IN IF c.st = "ERR" THEN Reject ELSE EventOf(c))
     [] q.st = "ev_tag"  -> EventOf(AddTag(q))
-    [] q.st = "ANY" -> [k |-> "any"]
+    [] q.st \in {"ANY", "ev_hbody"} -> [k |-> "any"]
     [] OTHER -> Reject        \* special, keysep, valsep, type, typeM, dd, ev_open .. ev_text, ev_assert, ERR
 
 \* ---------------------------------------------------------------- I-level agrees with P-level
